@@ -18,7 +18,7 @@ POPTS = [["--no-show-locs"], ["--show-bytes"], ["--show-bits"], ["--show-hex"], 
 
 
 def plan(tier):
-    return {"n": 200 if tier == "quick" else 2000, "floor": 50 if tier == "quick" else 500}
+    return {"n": 200 if tier == "quick" else 800, "floor": 50 if tier == "quick" else 200}
 
 
 def rule(tier):
